@@ -108,8 +108,12 @@ def _math(ctx) -> None:
             continue
         k = ords[q] = ords.get(q, 0) + 1
         if s.kind == "copy":
-            if ndims_guard2(s, s.recv):
-                continue                       # per-column recursion on tables
+            # the branch `self is 2-D` of a vector kernel is not reached by a table: Table overrides the comparison kernel itself and
+            # every public method that returns the arithmetic kernel (obligation d.table-scalar entry-points) - a 2-D OTHER operand,
+            # however, is reached (typed_vector + table) and its copy must drop the table's own name like every other result
+            if s.recv == ("param", s.top.params[0]) and ndims_guard2(s, s.recv) \
+                    and (s.top.name in prog.cls("Table").methods or s.top.name == "_elementwise_operation"):
+                continue
             ok = s.name_given and s.name == SNONE
             ctx.ob("a.math-unnamed", s.top, f"copy:{k}", ok, "unnamed result", s.node,
                    message=f"{q}: `{s.sh(s.call, 70)}` returns a copy that KEEPS the operand's name as the result of a binary operation")
@@ -190,6 +194,26 @@ def _table_arith(ctx) -> None:
             ok = False
     ctx.ob("d.table-scalar", f, "scalar", ok, "result column i named after source column i", scalar[0].node if scalar else f.node,
            message="table (op) scalar no longer copies every source column's stored name onto the result column of the same position")
+    # ... and every binary arithmetic entry point reaches this kernel on a table: a public Vector method that returns the VECTOR kernel
+    # (self._elementwise_operation) must be overridden in Table - inherited, it treats the table as a vector of columns and the
+    # per-column results come back unnamed (t.bit_lshift(1))
+    vcls, tcls = prog.cls("Vector"), prog.cls("Table")
+    inherited = []
+    n_entry = 0
+    for name, m in sorted(vcls.methods.items()):
+        if name.startswith("_") and not (name.startswith("__") and name.endswith("__")):
+            continue
+        mi = SInterp(prog, m)
+        MS = ("param", m.params[0]) if m.params else None
+        if any(e.kind == "return" and e.term is not None and e.term[0] == "call" and e.term[1] == ("attr", MS, "_elementwise_operation")
+               for e in mi.events):
+            n_entry += 1
+            if name not in tcls.methods:
+                inherited.append(name)
+    ctx.ob("d.table-scalar", f, "entry-points", n_entry >= 14 and not inherited,
+           f"{n_entry} public Vector methods return the vector kernel; Table overrides each", f.node,
+           message=f"Table inherits {inherited[:3]} from Vector: the vector kernel is applied to the table as a whole and every result column "
+                   f"comes back unnamed - table-with-scalar arithmetic keeps every column name")
     # table-table: result name from _resolve_binary_name(left._name, right._name)
     problems = []
     tt = [e for e in stores if is_table(e.conds, True)]
@@ -446,6 +470,18 @@ def _selections(ctx) -> None:
                message=f"Table.__getitem__: `{st.sh(st.call, 70)}` is built "
                        + (f"with name=`{st.sh(st.name, 30)}`" if st.name_given else "without a name")
                        + ": a named table loses its name through this selection (t[1:] and t.copy() keep it)")
+    # ... and every column selection (t['a', 'b'], t[:, 0:2], t[0:2, ('a', 'b')]) too: a narrower view of the same table
+    kc = 0
+    for st in all_sites2(prog):
+        if st.top is not g or st.kind != "Table":
+            continue
+        kc += 1
+        own = st.name == ("attr", GS, "_name") or (st.name is not None and st.name[0] == "attr" and st.name[2] in ("_name", "name")
+                                                   and st.name[1][0] == "sub" and st.name[1][1] == GS)     # (the row-sliced table's)
+        ctx.ob("i.table-own-name", g, f"column-selection:{kc}", own, "selected columns keep the table's name", st.node,
+               message=f"Table.__getitem__: `{st.sh(st.call, 70)}` is built "
+                       + (f"with name=`{st.sh(st.name, 30)}`" if st.name_given else "without a name")
+                       + ": a named table loses its name through this selection (T[:, :] / T['k', 'v'] while T[:] keeps it)")
     FS = ("param", f.params[0])
     for j, r in enumerate(rets):
         t = r.term
@@ -515,6 +551,16 @@ def _names_after_self(it, e, hcols) -> bool:
 
 _V, _T = "vector", "table"
 MUTANTS = [
+    dict(id="column-selection-drops-table-name", module=_T, old="			return Table(selected_cols, name=self._name)", new="			return Table(selected_cols)",
+         rules=["i.table-own-name"], desc="reverts fix 9a70a3e (names)"),
+    dict(id="column-slice-drops-table-name", module=_T, old="				return Table(selected, name=self._name)", new="				return Table(selected)",
+         rules=["i.table-own-name"], desc="reverts fix 9a70a3e (2-D slice)"),
+    dict(id="vector-op-table-named-like-table", module=_V, old="			return other.copy(result_cols, name=None)", new="			return other.copy(result_cols)",
+         rules=["a.math-unnamed"], desc="reverts fix 48a9ca2 (arithmetic)"),
+    dict(id="vector-compare-table-named-like-table", module=_V, old="				for col in other.cols()\n			), name=None)", new="				for col in other.cols()\n			))",
+         rules=["a.math-unnamed"], desc="reverts fix 48a9ca2 (comparison)"),
+    dict(id="table-bit-lshift-inherited", module=_T, old="	def bit_lshift(self, other):", new="	def _unused_bit_lshift(self, other):",
+         rules=["d.table-scalar"], desc="reverts fix fba6f9b"),
     dict(id="inner-join-empty-result-without-columns", module="table",
          old="		# (an empty result is a table with zero rows that still has every column, under its name)\n",
          new="		if all(len(col) == 0 for col in result_data):\n			return Table(())\n", rules=["f.joins"],
@@ -534,8 +580,8 @@ MUTANTS = [
          desc="reverts fix ca61f9e for the row form: (t << rows) has no column names"),
     dict(id="table-rlshift-removed", module=_T, old="	def __rlshift__(self, other):", new="	def _unused_rlshift(self, other):", rules=["i.table-own-name"],
          desc="reverts fix 2d82ad0: rows << table runs Vector.__rlshift__ over the column vectors"),
-    dict(id="vector-op-table-unnamed", module=_V, old="			for orig_col, result_col in zip(other.cols(), result_cols):\n				result_col._name = orig_col._name\n				result_col._wild = orig_col._wild\n			return other.copy(result_cols)",
-         new="			return other.copy(result_cols)", rules=["i.table-own-name"], desc="reverts fix d8d6f53"),
+    dict(id="vector-op-table-unnamed", module=_V, old="			for orig_col, result_col in zip(other.cols(), result_cols):\n				result_col._name = orig_col._name\n				result_col._wild = orig_col._wild\n",
+         new="", rules=["i.table-own-name"], desc="reverts fix d8d6f53"),
     dict(id="arithmetic-keeps-name", module=_V, count=1,
          old="			return Vector(result_values,\n							dtype=result_dtype,\n							name=None,\n							as_row=self._display_as_row)\n		except TypeError as e:",
          new="			return Vector(result_values,\n							dtype=result_dtype,\n							name=self._name,\n							as_row=self._display_as_row)\n		except TypeError as e:",
